@@ -168,3 +168,203 @@ def _main():
     name, repo, rest = sys.argv[1], sys.argv[2], sys.argv[3:]
     res = CHILDREN[name](repo, *[int(x) if x.lstrip('-').isdigit() else x for x in rest])
     print('RESULT ' + json.dumps(res, default=str))
+
+
+# ------------------------------------------------------------------------------------------------
+def _snap_stmts(repo):
+    """the snapping statements of tools.snap_command, taken from the current source (same extraction as the contract)"""
+    sys.path.insert(0, HERE)
+    sys.path.insert(0, os.path.join(HERE, ".deps"))
+    from pyvc.program import Program
+    from contracts import tools as ctools
+    prog = Program(repo)
+    q, stmts = ctools.prepare(prog)
+    return "\n".join(stmts)
+
+
+def snap_float_grid(repo, max_tick=20000):
+    """C20 (float clause, bounded): the extracted snap statements executed by CPython on on-grid and off-grid values"""
+    import math, random
+    src = _snap_stmts(repo)
+    code = compile(src, "<snap_arith>", "exec")
+
+    def snap(x, tps):
+        env = {"math": math, "original": x, "ticks_per_second": tps}
+        exec(code, env)
+        return env["snapped"]
+    kinds, first, total = {}, {}, 0
+    rng = random.Random(1)
+    for tps in (1, 2, 3, 7, 10, 100, 1000, 100000):
+        for k in range(0, max_tick, 1 if tps <= 100 else 3):
+            for x, on_grid in ((k / tps, True), (k * (1.0 / tps), False), (k / tps + rng.random() / tps, False)):
+                total += 1
+                y = snap(x, tps)
+                bad = None
+                if y > x:
+                    bad = "moved-up"
+                elif not (x < (round(y * tps) + 1) / tps):
+                    bad = "moved-a-tick-or-more"
+                elif on_grid and y != x:
+                    bad = "on-grid-value-moved"
+                elif snap(y, tps) != y:
+                    bad = "not-idempotent"
+                if bad:
+                    kinds[bad] = kinds.get(bad, 0) + 1
+                    first.setdefault(bad, {"original": x, "ticks_per_second": tps, "snapped": y})
+    return {"name": "bounded:snap-float-grid", "ok": not kinds, "bounded": f"ticks < {max_tick} at 8 tick rates, on-grid, gentrace-style and random off-grid values",
+            "cases": total, "kinds": kinds, "witness": first, "finding_kinds": sorted(kinds), "statements": src,
+            "detail": "never up, by less than a tick, on-grid fixed, idempotent" if not kinds else f"deviations: {kinds}"}
+
+
+def tools_files(repo, seed=0, n=40):
+    """C20 bounded: the real `snap` and `jitter` commands on random trace files: only the arrival column changes, within bounds,
+    jitter reproducible per seed and output in ascending arrival order with each pipeline's rows kept together."""
+    import csv, io, random, tempfile, contextlib
+    sys.path.insert(0, repo)
+    logging.disable(logging.CRITICAL)
+    from eudoxia import tools
+    rng = random.Random(seed)
+    cols = ["pipeline_id", "arrival_seconds", "priority", "operator_id", "parents", "baseline_cpu_seconds", "cpu_scaling", "memory_gb", "storage_read_gb"]
+    problems = []
+    with tempfile.TemporaryDirectory() as d:
+        for case in range(n):
+            rows, t = [], 0.0
+            for i in range(rng.randint(1, 8)):
+                t += rng.choice([0, 0.001, 0.29, 1.0, rng.random() * 3])
+                for j in range(rng.randint(1, 3)):
+                    rows.append({"pipeline_id": f"p{i}", "arrival_seconds": repr(t) if j == 0 else "", "priority": "QUERY" if j == 0 else "",
+                                 "operator_id": f"op{j+1}", "parents": "" if j == 0 else f"op{j}", "baseline_cpu_seconds": str(rng.choice([1, 2.5, 15])),
+                                 "cpu_scaling": rng.choice(["const", "linear3", "sqrt"]), "memory_gb": rng.choice(["", "0", "12.5"]),
+                                 "storage_read_gb": str(rng.choice([0, 10, 37.5]))})
+            src = os.path.join(d, f"in{case}.csv")
+            with open(src, "w", newline="") as f:
+                w = csv.DictWriter(f, fieldnames=cols); w.writeheader(); w.writerows(rows)
+            tps = rng.choice([1, 3, 10, 100, 1000])
+            delta = rng.choice([0, 0.5, 2.0])
+            sd = rng.randint(0, 5)
+            outs = {}
+            with contextlib.redirect_stdout(io.StringIO()):
+                tools.snap_command(src, os.path.join(d, f"s{case}.csv"), tps, force=True)
+                tools.jitter_command(src, os.path.join(d, f"j{case}a.csv"), delta, seed=sd, force=True)
+                tools.jitter_command(src, os.path.join(d, f"j{case}b.csv"), delta, seed=sd, force=True)
+            rd = lambda p: list(csv.DictReader(open(p)))
+            s_rows, ja, jb = rd(os.path.join(d, f"s{case}.csv")), rd(os.path.join(d, f"j{case}a.csv")), rd(os.path.join(d, f"j{case}b.csv"))
+            other = lambda r: {k: v for k, v in r.items() if k != "arrival_seconds"}
+            if len(s_rows) != len(rows) or any(other(a) != other(b) for a, b in zip(rows, s_rows)):
+                problems.append(("snap-changed-other-columns-or-rows", case))
+            for a, b in zip(rows, s_rows):
+                if (a["arrival_seconds"] == "") != (b["arrival_seconds"] == ""):
+                    problems.append(("snap-blank-arrival-changed", case))
+                elif a["arrival_seconds"]:
+                    x, y = float(a["arrival_seconds"]), float(b["arrival_seconds"])
+                    if y > x or not (x - y < 1.0 / tps + 1e-12):
+                        problems.append(("snap-out-of-bounds", case, x, y, tps))
+            if ja != jb:
+                problems.append(("jitter-not-reproducible", case))
+            key = lambda r: (r["pipeline_id"], r["operator_id"])
+            if sorted(map(lambda r: tuple(sorted(other(r).items())), ja)) != sorted(map(lambda r: tuple(sorted(other(r).items())), rows)):
+                problems.append(("jitter-changed-other-columns-or-rows", case))
+            old = {r["pipeline_id"]: float(r["arrival_seconds"]) for r in rows if r["arrival_seconds"]}
+            new, last, seen_p = {}, None, []
+            for r in ja:
+                if r["pipeline_id"] not in seen_p:
+                    seen_p.append(r["pipeline_id"])
+                    if not r["arrival_seconds"]:
+                        problems.append(("jitter-first-row-without-arrival", case)); continue
+                    new[r["pipeline_id"]] = float(r["arrival_seconds"])
+                    if last is not None and new[r["pipeline_id"]] < last:
+                        problems.append(("jitter-not-ascending", case))
+                    last = new[r["pipeline_id"]]
+                elif seen_p[-1] != r["pipeline_id"]:
+                    problems.append(("jitter-pipeline-rows-split", case))
+            for pid_, x in old.items():
+                if pid_ not in new or not (-1e-12 <= new[pid_] - x <= delta + 1e-12):
+                    problems.append(("jitter-out-of-bounds", case, pid_, x, new.get(pid_), delta))
+    kinds = {}
+    for p in problems:
+        kinds[p[0]] = kinds.get(p[0], 0) + 1
+    return {"name": "bounded:tools-on-files", "ok": not problems, "bounded": f"{n} random trace files through the real snap/jitter commands",
+            "cases": n, "kinds": kinds, "witness": problems[:3], "finding_kinds": sorted(kinds), "detail": "ok" if not problems else str(kinds)}
+
+
+def sensitivity_seed(repo):
+    """C20 bounded: _sensitivity_task builds workload i from seed start_seed + i (sensitivity analysis itself stubbed out)"""
+    import io, tempfile, contextlib, types
+    sys.path.insert(0, repo)
+    logging.disable(logging.CRITICAL)
+    from eudoxia import tools
+    from eudoxia.simulator import parse_args_with_defaults
+    from eudoxia.workload import WorkloadGenerator
+    from eudoxia.workload.csv_io import WorkloadTraceGenerator
+    calls = []
+    tools.sensitivity_command = lambda *a, **k: calls.append(a)
+    out = {}
+    with tempfile.TemporaryDirectory() as d:
+        pf = os.path.join(d, "p.toml")
+        open(pf, "w").write("duration = 30\nticks_per_second = 10\nwaiting_seconds_mean = 2.0\n")
+        so, se = sys.stdout, sys.stderr
+        try:
+            for i, seed in enumerate((7, 8)):
+                t = tools.SensitivityTask(workload_index=i, params_file=pf, output_dir=d, seed=seed, jitter_seed=None)
+                tools._sensitivity_task(t)
+                out[seed] = open(os.path.join(d, f"w{i}.csv")).read()
+        finally:
+            sys.stdout, sys.stderr = so, se
+        import tomllib
+        params = parse_args_with_defaults(tomllib.load(open(pf, "rb")))
+        ref = {}
+        for seed in (7, 8):
+            p2 = dict(params, random_seed=seed)
+            gen = WorkloadTraceGenerator(workload=WorkloadGenerator(**p2), ticks_per_second=params["ticks_per_second"], duration_secs=params["duration"])
+            buf = io.StringIO()
+            from eudoxia.workload.csv_io import CSVWorkloadWriter
+            w = CSVWorkloadWriter(buf)
+            for row in gen.generate_rows():
+                w.write_row(row)
+            ref[seed] = buf.getvalue().replace("\r\n", "\n")
+    probs = []
+    # the real sensitivity_sample_command with the process pool replaced by an in-process map that runs the real task function
+    class _FakePool:
+        def __init__(self, processes=None): pass
+        def __enter__(self): return self
+        def __exit__(self, *a): return False
+        def map(self, f, tasks):
+            out_ = []
+            for t in tasks:
+                so_, se_ = sys.stdout, sys.stderr     # the task function redirects both (it normally runs in a child process)
+                try:
+                    out_.append(f(t))
+                finally:
+                    sys.stdout, sys.stderr = so_, se_
+            return out_
+    real_pool = tools.multiprocessing.Pool
+    tools.multiprocessing.Pool = _FakePool
+    whole = {}
+    try:
+        with tempfile.TemporaryDirectory() as d2:
+            pf2 = os.path.join(d2, "p.toml")
+            open(pf2, "w").write("duration = 30\nticks_per_second = 10\nwaiting_seconds_mean = 2.0\n")
+            so, se = sys.stdout, sys.stderr
+            try:
+                with contextlib.redirect_stdout(io.StringIO()):
+                    tools.sensitivity_sample_command(pf2, os.path.join(d2, "out"), 2, start_seed=7)
+            finally:
+                sys.stdout, sys.stderr = so, se
+            for i in (0, 1):
+                fp = os.path.join(d2, "out", f"w{i}.csv")
+                whole[7 + i] = open(fp).read() if os.path.exists(fp) else None
+    finally:
+        tools.multiprocessing.Pool = real_pool
+    for seed in (7, 8):
+        if whole.get(seed) is None or whole[seed].replace("\r\n", "\n") != ref[seed]:
+            probs.append(f"sample-{seed - 7}-not-built-from-seed-start+{seed - 7}")
+    if out[7] == out[8]:
+        probs.append("different-seeds-same-workload")
+    for seed in (7, 8):
+        if out[seed].replace("\r\n", "\n") != ref[seed]:
+            probs.append(f"workload-not-from-seed-{seed}")
+    return {"name": "bounded:sensitivity-seed", "ok": not probs, "bounded": "two samples (seeds 7, 8), sensitivity analysis stubbed", "cases": 2,
+            "kinds": {p: 1 for p in probs}, "finding_kinds": probs, "witness": probs, "detail": "ok" if not probs else str(probs)}
+
+
+CHILDREN.update({"snap_float_grid": snap_float_grid, "tools_files": tools_files, "sensitivity_seed": sensitivity_seed})
